@@ -6,11 +6,12 @@ import gen as G
 import tmh
 
 PROP = 'C18'
-LEAN_MODULES = ['BR.Props.C18']
+LEAN_MODULES = ['BR.Props.C18', 'BR.Props.C18Twist']
 THEOREMS = ['BR.C18.plane_contains_points', 'BR.C18.mirror_reflects', 'BR.C18.mirror_involution', 'BR.C18.interpMid_pos', 'BR.C18.interpMid_geodesic',
             'BR.C18.lookAt_keeps_pos', 'BR.C18.lookAt_proper', 'BR.C18.distance_metric', 'BR.C18.arcDistance_is_norm', 'BR.C18.closeLinearGap_advance',
             'BR.C18.ikPath_shape', 'BR.C18.ikPath_even', 'BR.C18.fibo_unit', 'BR.C18.unitSphere_unit', 'BR.C18.angleMod_mod_2pi',
-            'BR.Rot.rod_add', 'BR.Rot.log3_generic_form']
+            'BR.Rot.rod_add', 'BR.Rot.log3_generic_form',
+            'BR.C18T.twistToGoal_reaches']
 TIE = ('K: hand-written model lean/BR/Model/Helpers.lean of the fsr helpers; every run evaluates the Float instance (compiled driver) and the real functions on the same '
        'inputs (frames not through the world origin) and compares; each defining relation is also evaluated directly on the real functions.')
 TRUSTED = ['Lean 4.33 kernel + Mathlib v4.33 (axioms: propext, Classical.choice, Quot.sound)', 'harness/c18.py generators and tolerances',
@@ -18,7 +19,7 @@ TRUSTED = ['Lean 4.33 kernel + Mathlib v4.33 (axioms: propext, Classical.choice,
 ASSUMPTIONS = ['|p| <= 10, rotation angle <= pi-1e-3']
 RULE = ('poses from pose classes with positions up to 10 (mirror planes / reference frames away from the origin), non-collinear point triples, deltas in (0,1], step counts 2..200, '
         'point counts 1..2000, angles in [-50,50]; distinct = distinct (function, input); non-trivial = rotation part non-zero or position non-zero')
-SAMPLED = ['twistToGoal exponentiates onto the goal (needs exp6∘log6 = id, not yet a theorem)', 'closeArcGap advances by delta in arc distance (implementation only)',
+SAMPLED = ['twistToGoal exponentiates onto the goal when the relative rotation is exactly a half turn (below pi it is a theorem)', 'closeArcGap advances by delta in arc distance (implementation only)',
            'chain / numerical Jacobians equal the analytic ones (implementation only, 1e-5)', 'rotationFromVector (optimiser, 1e-5)']
 
 
